@@ -87,9 +87,11 @@ Example C29_stdvar_nonvacuous :
   agg_stdvar (fun _ => false) (FFin (1 # 1)) [FInf false; FFin (4 # 1)] = FNaN.
 Proof. vm_compute. split; reflexivity. Qed.
 
-(* QUANTILE (promql/quantile.go) for 0 <= phi <= 1 and a non-empty group: the values are sorted
-   NaN-first ascending (a sorted permutation), the rank phi*(n-1) splits into an index
-   0 <= lo <= n-1 and a weight 0 <= w < 1, and the result is s[lo]*(1-w) + s[min(n-1,lo+1)]*w in
+(* QUANTILE (promql/quantile.go, after fix 023c7e876c) for 0 <= phi <= 1 and a non-empty group
+   — the documented "value that ranks at number phi*N among the N values, NaN smallest": the
+   values are sorted NaN-first ascending (a sorted permutation), the rank phi*(n-1) splits into
+   an index 0 <= lo <= n-1 and a weight 0 <= w < 1; when the rank is a whole number (w = 0) the
+   result IS the value at that rank, s[lo]; otherwise it is s[lo]*(1-w) + s[min(n-1,lo+1)]*w in
    float arithmetic.  (phi = NaN, phi < 0, phi > 1 return NaN, -Inf, +Inf by definition of the
    model's [quantile].) *)
 Theorem C29_quantile : forall ovf (q : Q) (vals : list fval),
@@ -103,25 +105,35 @@ Theorem C29_quantile : forall ovf (q : Q) (vals : list fval),
   Permutation s vals /\ Sorted (fun a b => nf_le a b = true) s /\
   0 <= lo <= n - 1 /\ lo <= hi <= n - 1 /\ (0 <= w)%Q /\ (w < 1)%Q /\
   quantile ovf (FFin q) vals =
-    fadd ovf (fmul ovf (nth (Z.to_nat lo) s FNaN) (FFin (1 - w)))
-             (fmul ovf (nth (Z.to_nat hi) s FNaN) (FFin w)).
+    (if Qeq_bool w 0 then nth (Z.to_nat lo) s FNaN
+     else fadd ovf (fmul ovf (nth (Z.to_nat lo) s FNaN) (FFin (1 - w)))
+                   (fmul ovf (nth (Z.to_nat hi) s FNaN) (FFin w))).
 Proof. exact quantile_spec. Qed.
+
+(* in particular phi = 1 is the last element of the NaN-first ascending order (the maximum) and
+   phi = 0 the first one, whatever the values (infinite ones included) *)
+Theorem C29_quantile_extremes : forall ovf v vals,
+  quantile ovf (FFin 1) (v :: vals) = nth (length vals) (sort_by heap_less (v :: vals)) FNaN /\
+  quantile ovf (FFin 0) (v :: vals) = nth 0 (sort_by heap_less (v :: vals)) FNaN.
+Proof. intros ovf v vals. split; [apply quantile_one | apply quantile_zero]. Qed.
 
 Example C29_quantile_nonvacuous :
   quantile (fun _ => false) (FFin (3 # 4)) [FFin 5; FFin 1; FNaN; FFin 2; FFin 9] = FFin 5 /\
-  quantile (fun _ => false) (FFin (1 # 2)) [FFin 4; FFin 1] = FFin (5 # 2).
-Proof. vm_compute. split; reflexivity. Qed.
+  quantile (fun _ => false) (FFin (1 # 2)) [FFin 4; FFin 1] = FFin (5 # 2) /\
+  quantile (fun _ => false) (FFin 1) [FFin 5; FFin 1; FInf false; FFin 2] = FInf false.
+Proof. vm_compute. repeat split; reflexivity. Qed.
 
-(* FINDING (second).  Documented: "the value that ranks at number phi*N among the N values";
-   in particular quantile(1, v) is the maximum.  When the interpolation weight is 0 the formula
-   still multiplies the upper neighbour by 0, so an infinite neighbour yields Inf*0 = NaN:
-   quantile(1, {1, +Inf}) = NaN although the maximum is +Inf, and the quantile of a single
-   +Inf value is NaN for every phi in [0,1]. *)
-Theorem C29_quantile_rank_refuted : forall ovf,
-  quantile ovf (FFin 1) [FFin 1; FInf false] = FNaN /\
-  quantile ovf (FFin (1 # 2)) [FInf false] = FNaN /\
-  agg_max (FFin 1) [FInf false] = FInf false.
-Proof. exact quantile_zero_weight_inf. Qed.
+(* FIXED (023c7e876c).  The previous quantile() ([quantile_old]) interpolated also for weight 0,
+   so an infinite upper neighbour gave Inf*0 = NaN: quantile(1, {1, +Inf}) = NaN although the
+   maximum is +Inf, and the quantile of a single +Inf value was NaN for every phi in [0,1].
+   The repaired function returns +Inf in both cases. *)
+Theorem C29_quantile_rank_old_refuted : forall ovf,
+  quantile_old ovf (FFin 1) [FFin 1; FInf false] = FNaN /\
+  quantile_old ovf (FFin (1 # 2)) [FInf false] = FNaN /\
+  agg_max (FFin 1) [FInf false] = FInf false /\
+  quantile ovf (FFin 1) [FFin 1; FInf false] = FInf false /\
+  quantile ovf (FFin (1 # 2)) [FInf false] = FInf false.
+Proof. exact quantile_zero_weight_inf_old. Qed.
 
 (* MAX / MIN (`group.floatValue < f || math.IsNaN(group.floatValue)`): the result is one of the
    group's values; as soon as one value is not NaN the result is not NaN and is an upper
